@@ -610,6 +610,32 @@ func (w *World) StopNow(kind string) StopResult {
 	} else {
 		go w.Serv.Stop(errors.New(cause))
 	}
+	// the messaging system keeps delivering until the gateway has closed its client: events for subscribed resources
+	// arrive at arbitrary moments of the shutdown (never after Close has returned)
+	var evNs []string
+	for _, ns := range w.MQ.Subs() {
+		if strings.HasPrefix(ns, "event.") {
+			evNs = append(evNs, ns)
+		}
+	}
+	stopDeliver := make(chan struct{})
+	if len(evNs) > 0 {
+		go func() {
+			for i := 0; ; i++ {
+				select {
+				case <-stopDeliver:
+					return
+				default:
+				}
+				ns := evNs[i%len(evNs)]
+				if !w.MQ.DeliverIfOpen(ns, ns+".custom", []byte(`{"during":"stop"}`)) && w.MQ.IsClosed() {
+					return
+				}
+				time.Sleep(time.Duration(200+i%7*300) * time.Microsecond)
+			}
+		}()
+	}
+	defer close(stopDeliver)
 	r.DuringRefused, r.DuringHTTP = true, 503
 	if live > 0 {
 		// the connection workers are still gated, so Stop is now waiting for the connections to be disposed:
